@@ -21,6 +21,22 @@ CLAIMS = {
         "text": "The slot invariant (at most one of write guard / upgradable guard / writer waiting for readers / pending upgrade, at every state of every history), the fact that try_upgrade, upgrade() and downgrade_to_upgradable never touch the inner mutex, and 'a pending upgrade excludes writers and upgradable readers' are Lean theorems on the poll-granular RwLock model. " + _TIE + " Compared fields: outcome and both state words; monitors C11 (slot word) and C02.",
         "note": "PARTIAL: atomic calls; the value clause is derived from exclusive access (C02) rather than from a payload model.",
     },
+    "C06": {
+        "text": "All four clauses (nothing pending with no guard alive; no read() pending without writer; no upgradable_read() pending with a free slot; no writer/upgrade pending once no reader is left) are Lean theorems over every finite history of the poll-granular RwLock model (full alphabet, borrowed and Arc, cancellation at every point, completed futures kept alive). They rest on three inductive invariants proved for every reachable state: WordInv (who holds what), RegInv (which future is registered on which of the three events; no stale listeners) and WakeInv (a notified listener's owner has an outstanding wake-up; the inner mutex, no_writer and no_readers each hold a notification whenever a registered waiter could proceed). " + _TIE + " Compared fields: outcome, wakers called, both words, listener counts and notified flags of all three events.",
+        "note": "PARTIAL: polls are atomic in the model; thread interleavings are not covered by the theorems. event-listener is modelled, not verified. Reading: a never-polled live upgrade future counts as a holder.",
+    },
+    "C10": {
+        "text": "The state words of Mutex, Semaphore and RwLock are proved to account exactly for the operations that are alive, and every registered listener to belong to a live operation, at every state of every history in which futures are dropped at any moment (never polled, pending, notified, completed). Drain theorems: once no future and no guard is alive the words are zero / every issued permit is back, all event queues are empty, and try_lock / try_write / try_acquire (all permits) succeed. " + _TIE,
+        "note": "PARTIAL: 'as if never started' is claimed as exact accounting and equal grants, not trace equality; atomic calls; the thread race 'drop a pending future while another thread releases' is not covered by the theorems.",
+    },
+    "C12": {
+        "text": "At every quiescent state of every history with a polled pending write() or a pending upgrade and no write/upgradable guard alive, the writer bit is set (theorem C12); in any state with the bit set try_read fails and polls of read() futures return Pending; nothing a reader does changes the bit - Lean theorems on the poll-granular RwLock model. " + _TIE + " The harness additionally probes try_read on the implementation at every such quiescent point.",
+        "note": "PARTIAL: atomic polls; the 'lasts until' clause is stated as: only a writer's release/downgrade or the cancellation of the waiting writer can clear the bit.",
+    },
+    "C14": {
+        "text": "Exact characterisations, at every reachable state of the three models, of when each try_* succeeds (try_lock: no guard and nobody starved; try_read: no write guard / waiting writer / pending upgrade; try_upgradable_read: slot free and nobody starved; try_write: that and no reader; try_upgrade: no other reader; try_acquire: a permit is available), that none of them registers a listener, and that all succeed when nothing is alive - Lean theorems (corollaries of the word invariants). " + _TIE + " try_* ops are part of the exhaustive alphabet, so they probe the implementation after every prefix.",
+        "note": "PARTIAL: atomic calls; 'never succeeds in conflict' under interleavings not yet covered by a theorem.",
+    },
     "C03": {
         "text": "Conservation, no over-issue, exactness of try_acquire and the per-operation permit deltas are Lean theorems over every initial count and every finite operation sequence of the poll-granular Semaphore model (induction on the history). " + _TIE + " Compared fields: outcome and permit counter.",
         "note": "PARTIAL: poll-granular (atomic calls); usize wrap-around outside the model (Nat); interleavings not yet covered by a theorem.",
